@@ -60,6 +60,8 @@ type collector struct {
 	Assumptions []string          `json:"assumptions"`
 	ReplayFiles []string          `json:"replay_files"`
 	maxSamples  int
+	// sampler summarises cases that are too large to be written out in full as evidence samples
+	sampler func(caseJSON []byte) []byte
 }
 
 var (
@@ -108,8 +110,14 @@ func (c *collector) record(caseJSON []byte, v verdict) {
 		h := hashBytes(caseJSON)
 		if !c.NTHashes[h] {
 			c.NTHashes[h] = true
-			if len(c.Samples) < c.maxSamples && len(caseJSON) < 6000 {
-				c.Samples = append(c.Samples, json.RawMessage(append([]byte{}, caseJSON...)))
+			if len(c.Samples) < c.maxSamples {
+				if len(caseJSON) < 6000 {
+					c.Samples = append(c.Samples, json.RawMessage(append([]byte{}, caseJSON...)))
+				} else if c.sampler != nil {
+					if sj := c.sampler(caseJSON); len(sj) > 0 && len(sj) < 20000 {
+						c.Samples = append(c.Samples, json.RawMessage(sj))
+					}
+				}
 			}
 		}
 	}
@@ -233,8 +241,10 @@ type knownEntry struct {
 var knownFindings []knownEntry
 
 // known_findings.txt: one entry per line,
-//   fixed: property=<id> <commit> <what failed>
-//   finding: property=<id> signature=<signature> <what fails>
+//
+//	fixed: property=<id> <commit> <what failed>
+//	finding: property=<id> signature=<signature> <what fails>
+//
 // "fixed" entries suppress nothing; "finding" entries make the check print KNOWN-FINDING and
 // exclude exactly the cases failing with that signature.
 func loadKnown() {
